@@ -23,12 +23,12 @@ def check_ctx(ctx, t):
     """[(ckey, detail)] for the values of transaction dict t not admitted by tail context ctx."""
     out = []
     for lab in ctxlib.missing_types(ctx, t):
-        out.append((lab, "kind %s not in %s" % (lab, sorted(ctxlib.type_names(ctx)))))
+        out.append((lab, "kind %s not in %s" % (lab, sorted(ctxlib.type_names(ctx))), None))
     for field, atom, info in ctxlib.missing_addrs(ctx, t):
-        out.append((field, "%s=%s not admitted: %s" % (field, atom, info)))
+        out.append((field, "%s=%s not admitted: %s" % (field, atom, info), atom))
     x = ctxlib.fee_excess(ctx, t)
     if x:
-        out.append(("fee", "Fee %s above bound %s" % x))
+        out.append(("fee", "Fee %s above bound %s" % x, None))
     return out
 
 
@@ -46,12 +46,12 @@ def evaluate(case, ctr, rng):
                 if t and i != j:
                     ctr["constrained_member_checks"] += 1
                     nontrivial.append(common.h([case.src, ln, "abs", i]))
-                for ckey, det in check_ctx(ctx.absolute_context(i), t):
-                    viols.append({"kind": "absolute-context", "key": (ln, i, ckey), "ckey": ckey, "type_label": ckey,
+                for ckey, det, atom in check_ctx(ctx.absolute_context(i), t):
+                    viols.append({"kind": "absolute-context", "key": (ln, i, ckey), "ckey": ckey, "type_label": ckey, "atom": atom,
                                   "what": "block at line %d, absolute_context(%d): %s; group member %s" % (ln, i, det, t),
                                   "exec": frag.slim_exec(e)})
-            for ckey, det in check_ctx(ctx.gtxn_context(j), e.group[j]):
-                viols.append({"kind": "gtxn-context-own", "key": (ln, j, ckey), "ckey": ckey, "type_label": ckey,
+            for ckey, det, atom in check_ctx(ctx.gtxn_context(j), e.group[j]):
+                viols.append({"kind": "gtxn-context-own", "key": (ln, j, ckey), "ckey": ckey, "type_label": ckey, "atom": atom,
                               "what": "block at line %d, gtxn_context(%d) for own index %d: %s" % (ln, j, j, det),
                               "exec": frag.slim_exec(e)})
             for k in range(-15, 16):
@@ -61,8 +61,8 @@ def evaluate(case, ctr, rng):
                 t = e.group[j + k]
                 if t:
                     nontrivial.append(common.h([case.src, ln, "rel", k]))
-                for ckey, det in check_ctx(ctx.relative_context(k), t):
-                    viols.append({"kind": "relative-context", "key": (ln, k, ckey), "ckey": ckey, "type_label": ckey,
+                for ckey, det, atom in check_ctx(ctx.relative_context(k), t):
+                    viols.append({"kind": "relative-context", "key": (ln, k, ckey), "ckey": ckey, "type_label": ckey, "atom": atom,
                                   "what": "block at line %d, relative_context(%+d) (member %d): %s; member %s" % (ln, k, j + k, det, t),
                                   "exec": frag.slim_exec(e)})
     # empty when the index is impossible
